@@ -91,7 +91,13 @@ func runSQLStore(kind string, ops []string) string {
 			continue
 		}
 		e.beginOp(-1)
-		out = append(out, recordStoreOpsCreated(store, []string{op}, false))
+		e.lastList = ""
+		r := recordStoreOpsCreated(store, []string{op}, false)
+		if strings.HasPrefix(op, "Q.") {
+			// the statement List built for this call, next to its answer
+			r += "|" + e.lastList
+		}
+		out = append(out, r)
 	}
 	res := checkStoreLog(e.log)
 	if e.problem != "" {
